@@ -19,7 +19,7 @@ package comdoc
 //@        (short ==> sameslice(sat, old(r.SSAT))) && (!short ==> sameslice(sat, old(r.SAT))) && allocated(freeList) && cap(freeList) == old(count)
 //@   loop 0 invariant @table_not_touched_yet (short ==> forall(j, 0, len(sat), sat[j] == old(r.SSAT[j]))) && (!short ==> forall(j, 0, len(sat), sat[j] == old(r.SAT[j])))
 //@   loop 0 invariant @free_list_so_far forall(k, 0, len(freeList), 0 <= freeList[k] && freeList[k] <= rangeindex && sat[freeList[k]] == -1)
-//@   loop 0 invariant @free_list_ascending forall(k, 1, len(freeList), freeList[k-1] < freeList[k])
+//@   loop 0 invariant @free_list_ascending forall(a, 0, len(freeList), forall(b, a + 1, len(freeList), freeList[a] < freeList[b]))
 //@   loop 1 sig "for i := oldCount; i < len(newSAT); i++" invariant oldCount <= i && i <= len(newSAT) && count >= 0 && len(freeList) + count == old(count) && \
 //@        oldCount == len(sat) && count <= len(newSAT) - i && len(newSAT) <= oldCount + old(count) + 1024 && \
 //@        (r.SectorSize == 512 ==> len(newSAT) == oldCount + needBlocks * 128) && (r.SectorSize == 4096 ==> len(newSAT) == oldCount + needBlocks * 1024) && allocated(freeList) && cap(freeList) == old(count) && \
@@ -28,12 +28,12 @@ package comdoc
 //@   loop 1 invariant @new_cells_are_free forall(j, oldCount, i, newSAT[j] == -1)
 //@   loop 1 invariant @old_cells_unchanged (short ==> forall(j, 0, oldCount, newSAT[j] == old(r.SSAT[j]))) && (!short ==> forall(j, 0, oldCount, newSAT[j] == old(r.SAT[j])))
 //@   loop 1 invariant @free_list_so_far forall(k, 0, len(freeList), 0 <= freeList[k] && freeList[k] < i && newSAT[freeList[k]] == -1)
-//@   loop 1 invariant @free_list_ascending forall(k, 1, len(freeList), freeList[k-1] < freeList[k])
+//@   loop 1 invariant @free_list_ascending forall(a, 0, len(freeList), forall(b, a + 1, len(freeList), freeList[a] < freeList[b]))
 //@   ensures @nothing_requested count <= 0 ==> len(ret0) == 0 && sameslice(r.SAT, old(r.SAT)) && sameslice(r.SSAT, old(r.SSAT))
 //@   ensures @as_many_as_requested count > 0 ==> len(ret0) == count
 //@   ensures @only_free_short_cells_in_bounds count > 0 && short ==> forall(k, 0, len(ret0), 0 <= ret0[k] && ret0[k] < len(r.SSAT) && r.SSAT[ret0[k]] == -1)
 //@   ensures @only_free_cells_in_bounds count > 0 && !short ==> forall(k, 0, len(ret0), 0 <= ret0[k] && ret0[k] < len(r.SAT) && r.SAT[ret0[k]] == -1)
-//@   ensures @distinct_ascending forall(k, 1, len(ret0), ret0[k-1] < ret0[k])
+//@   ensures @distinct_ascending forall(a, 0, len(ret0), forall(b, a + 1, len(ret0), ret0[a] < ret0[b]))
 //@   ensures @table_only_grows_by_whole_blocks (short ==> len(r.SSAT) >= old(len(r.SSAT)) && (len(r.SSAT) - old(len(r.SSAT))) % (r.SectorSize / 4) == 0) && \
 //@        (!short ==> len(r.SAT) >= old(len(r.SAT)) && (len(r.SAT) - old(len(r.SAT))) % (r.SectorSize / 4) == 0)
 //@   ensures @existing_short_cells_keep_their_value short ==> forall(j, 0, old(len(r.SSAT)), r.SSAT[j] == old(r.SSAT[j]))
@@ -58,7 +58,7 @@ package comdoc
 //@   deadedges 4
 //@   loop 0 sig "for _, i := range freeList" invariant -1 <= rangeindex && rangeindex < len(freeList) && sameslice(sat, r.SAT) && \
 //@        (rangeindex == -1 ==> previous == -2 && first == -2) && (rangeindex >= 0 ==> previous == freeList[rangeindex] && first == freeList[0]) && \
-//@        forall(k, 0, len(freeList), 0 <= freeList[k] && freeList[k] < len(sat)) && forall(k, 1, len(freeList), freeList[k-1] < freeList[k]) && \
+//@        forall(k, 0, len(freeList), 0 <= freeList[k] && freeList[k] < len(sat)) && forall(a, 0, len(freeList), forall(b, a + 1, len(freeList), freeList[a] < freeList[b])) && \
 //@        (len(freeList) > 0 ==> !samearr(freeList, sat)) && len(contents) >= 0
 //@   loop 0 invariant @chain_links_so_far forall(k, 0, rangeindex, sat[freeList[k]] == freeList[k+1])
 //@   ensures @first_sector_of_the_new_chain ret1 == nil && len(contents) > 0 ==> ret0 >= 0 && ret0 < len(r.SAT)
